@@ -931,3 +931,45 @@ def edge_obligations(fn, arm, discharge):
             seen.add((tok, where))
             out.append((tok, where))
     return out
+
+
+def origin(fn, e, pos=None, depth=4):
+    """Value-origin normalisation: canonical text of e after following local definitions
+    (`auto* const p = pool_;` then p -> this->pool_).  Only locals with a unique definition (reaching
+    pos if given, else a single declaration in the function) whose initialiser is itself a path are
+    followed; everything else is returned as P(e)."""
+    t = P(e)
+    for _ in range(depth):
+        m = re.match(r"^(\*?)(\w+)(.*)$", t)
+        if not m:
+            break
+        star, head, rest = m.groups()
+        if head == "this" or any(p["name"] == head for p in fn.params):
+            break
+        ini = None
+        if pos is not None:
+            ini = reaching_init(fn, head, pos)
+        if ini is None:
+            ds = [ev for _, _, ev in fn.all_events() if ev.get("k") == "decl" and ev.get("var") == head]
+            ws = [ev for _, _, ev in fn.all_events() if ev.get("k") == "write" and P(ev["lhs"]) == head]
+            if len(ds) == 1 and not ws:
+                ini = ds[0].get("init")
+        if ini is None:
+            break
+        s = strip(ini)
+        if not isinstance(s, dict) or s.get("k") not in ("var", "mem", "this", "un", "index", "call"):
+            break
+        if s.get("k") == "call" and (s.get("args") or s.get("op") not in ("->", "*", None)):
+            break
+        it = P(s)
+        if it.startswith("&"):
+            it = it[1:]
+            if rest.startswith("->"):
+                rest = "." + rest[2:]
+            elif star:
+                star = ""
+        nt = star + it + rest
+        if nt == t:
+            break
+        t = nt
+    return t
